@@ -28,3 +28,7 @@ EXTRA_RUNS["C09"] = [sio_run("c15", "c15_mismatches", "c15_violations", "c15_non
 EXTRA_RUNS["C06"] = [dict(component="jsiso", require="Corr.JsCorr", require_vo="Corr/JsCorr.vo",
                           n=dict(quick=200, thorough=3000), shard=125, timeout=dict(quick=240, thorough=1200),
                           evals=dict(M="iso_mismatches", V="c06_js_violations"))]
+
+# C13: "hosts load YAML or JSON and compile" (cmd/mcrew/service.go is among its anchors): the mcrew operation sequences,
+# whose machines get their specifications through Service.GetSpec from files (one of them 1.3 MB long), also run for C13
+EXTRA_RUNS["C13"] = [dict([r for r in _MC["C16"]["runs"] if r["component"] == "mcrewseq"][0], n=dict(quick=80, thorough=800))]
